@@ -23,7 +23,7 @@ func VerifC15BigObjectUnset() {
 	}
 	// model: which of the two 'x' members are still there
 	first, last := true, true
-	switch v.Concretize(v.Int("op", 0, 3)) {
+	switch v.Concretize(v.Int("op", 0, 4)) {
 	case 0:
 		ok, err := root.UnsetByIndex(16)
 		v.Assert(ok && err == nil, "UnsetByIndex of the last member fails")
@@ -35,6 +35,15 @@ func VerifC15BigObjectUnset() {
 		ok, err := root.UnsetByIndex(0)
 		v.Assert(ok && err == nil, "UnsetByIndex of the first member fails")
 		first = false
+	case 4:
+		// remove the last member by key (its slot stays behind), then pop the member before it
+		if a != b {
+			ok, err := root.Unset(string([]byte{'x', b}))
+			v.Assert(ok && err == nil, "Unset of the last member by key fails")
+			last = false
+			v.Assert(root.Pop() == nil, "Pop after Unset fails")
+			v.Cover("unset-then-pop")
+		}
 	case 3:
 		// Unset by key removes the first occurrence of that key
 		k := v.Byte("unsetKey")
